@@ -61,7 +61,8 @@ SegBinaryRec == /\ Ev("SegBinaryRec")
                 /\ UNCHANGED <<names, segs, cur>>
 GcSubstance == /\ Ev("GcSubstance")
                /\ Report("C15.gc_substance_assembles", <<E.name, E.segments, E.homo_err, l>>, E.homo /\ E.hetero)
-               /\ cnt' = BumpAll(cnt, {"gc_substances"} \cup (IF E.joback THEN {"gc_substances_with_joback"} ELSE {})
+               /\ \A k \in 1..Len(E.tables) : Report("C15.gc_substance_assembles", <<E.name, E.tables[k].table, E.tables[k].err, l>>, E.tables[k].ok)
+               /\ cnt' = BumpAll(BumpBy(cnt, "gc_table_assemblies", Len(E.tables)), {"gc_substances"} \cup (IF E.joback THEN {"gc_substances_with_joback"} ELSE {})
                                          \cup (IF E.hetero_critical_point THEN {"gc_substances_with_critical_point"} ELSE {}))
                /\ UNCHANGED <<names, segs, cur>>
 Pipeline == /\ Ev("Pipeline")
